@@ -60,7 +60,7 @@ pub fn strategy(max_ops: usize) -> impl Strategy<Value = Case> {
         1 => any::<u16>().prop_map(Op::Reg3),
         1 => any::<u16>().prop_map(Op::RegErr),
         1 => prop_oneof![100u16..6000, Just(16_000u16)].prop_map(Op::Silence),
-        3 => (any::<u16>(), prop_oneof![Just(500_080u32), Just(62_510), 1u32..4_000_000, 1u32..200_000]).prop_map(|(l, r)| Op::Rate(l, r)),
+        3 => (any::<u16>(), prop_oneof![4 => Just(500_080u32), 4 => Just(62_510), 4 => 1u32..4_000_000, 4 => 1u32..200_000, 1 => Just(600_000_000u32), 1 => Just(536_870_912), 1 => 500_000_000u32..4_000_000_000]).prop_map(|(l, r)| Op::Rate(l, r)),
     ];
     (1u8..=4, any::<bool>(), 0u8..TIMEOUTS.len() as u8, vec(op, 1..max_ops), prop::option::weighted(0.2, 0u8..4))
         .prop_map(|(n_links, classic, timeout, ops, dead)| Case { n_links, classic, timeout, ops, dead: dead.filter(|_| n_links >= 2).map(|d| d % n_links) })
